@@ -266,135 +266,3 @@ Definition shorthand_applies (name : list N) : bool :=
 
 Lemma builtin_shorthands_apply : forallb (fun ng => shorthand_applies (fst ng)) cpp_std_groups = true.
 Proof. vm_compute. reflexivity. Qed.
-
-(* ---- several builders in one process -------------------------------------------------------------- *)
-Local Open Scope nat_scope.
-
-Lemma upd_nth_length {A} (f : A -> A) l : forall i, length (upd_nth i f l) = length l.
-Proof. induction l as [|x l IH]; intros [|i]; cbn; auto. Qed.
-
-Lemma upd_nth_other {A} (f : A -> A) l : forall i j, i <> j -> nth_error (upd_nth j f l) i = nth_error l i.
-Proof.
-  induction l as [|x l IH]; intros [|i] [|j] H; cbn; auto; try congruence.
-Qed.
-
-Lemma papply_builders_len detach builtin p o : length (p_builders p) <= length (p_builders (papply detach builtin p o)).
-Proof.
-  destruct o as [|j op|j]; cbn [papply p_builders]; rewrite ?upd_nth_length, ?app_length; cbn; try lia.
-  destruct (nth_error (p_builders p) j); [|lia].
-  destruct (bcreate_st detach b) as [[b' cs] oo]. cbn [p_builders]. rewrite upd_nth_length. lia.
-Qed.
-
-Lemma papply_builder_other detach builtin p o i :
-  i < length (p_builders p) -> pop_touches i o = false ->
-  nth_error (p_builders (papply detach builtin p o)) i = nth_error (p_builders p) i.
-Proof.
-  intros Hi Ht. destruct o as [|j op|j]; cbn [papply pop_touches p_builders] in *.
-  - apply nth_error_app1, Hi.
-  - apply upd_nth_other. intro E; subst. rewrite Nat.eqb_refl in Ht. discriminate.
-  - destruct (nth_error (p_builders p) j); [|reflexivity].
-    destruct (bcreate_st detach b) as [[b' cs] oo]. cbn [p_builders].
-    apply upd_nth_other. intro E; subst. rewrite Nat.eqb_refl in Ht. discriminate.
-Qed.
-
-(* contexts are only ever appended *)
-Lemma papply_ctx_nth detach builtin p o c x :
-  nth_error (p_ctxs p) c = Some x -> nth_error (p_ctxs (papply detach builtin p o)) c = Some x.
-Proof.
-  intros H. destruct o as [|j op|j]; cbn [papply p_ctxs]; try exact H.
-  destruct (nth_error (p_builders p) j); [|exact H].
-  destruct (bcreate_st detach b) as [[b' cs] oo]. cbn [p_ctxs].
-  destruct cs; [destruct oo|]; try exact H.
-  rewrite nth_error_app1; [exact H | apply nth_error_Some; congruence].
-Qed.
-
-(* whatever is done with OTHER builders (created before or after), a context keeps reporting the same; a context that
-   holds its own copy keeps reporting the same whatever is done at all *)
-Theorem earlier_context_stable detach builtin ops : forall p c,
-  ops_spare_ctx p c ops = true ->
-  ctx_report (prun detach builtin ops p) c = ctx_report p c.
-Proof.
-  unfold prun. induction ops as [|o ops IH]; intros p c H; [reflexivity|].
-  cbn [fold_left]. unfold ops_spare_ctx in H.
-  destruct (nth_error (p_ctxs p) c) as [[i|s]|] eqn:G; [| |discriminate].
-  - cbn [forallb] in H. apply andb_true_iff in H as [Hi H]. apply andb_true_iff in H as [H1 H2].
-    apply Nat.ltb_lt in Hi. apply negb_true_iff in H1.
-    pose proof (papply_ctx_nth detach builtin p o c _ G) as G'.
-    rewrite IH.
-    + unfold ctx_report. rewrite G, G'. f_equal. apply papply_builder_other; assumption.
-    + unfold ops_spare_ctx. rewrite G', H2, andb_true_r. apply Nat.ltb_lt.
-      pose proof (papply_builders_len detach builtin p o). lia.
-  - pose proof (papply_ctx_nth detach builtin p o c _ G) as G'.
-    rewrite IH.
-    + unfold ctx_report. rewrite G, G'. reflexivity.
-    + unfold ops_spare_ctx. rewrite G'. reflexivity.
-Qed.
-
-Lemma all_own_nth cs c : all_own cs = true -> c < length cs -> exists s, nth_error cs c = Some (CtxOwn s).
-Proof.
-  unfold all_own. revert c. induction cs as [|x cs IH]; intros c H L; [cbn in L; lia|].
-  cbn [forallb] in H. apply andb_true_iff in H as [H1 H2].
-  destruct c; cbn [nth_error].
-  - destruct x; [discriminate | eauto].
-  - apply IH; [exact H2 | cbn in L; lia].
-Qed.
-
-Lemma papply_all_own builtin p o : all_own (p_ctxs p) = true -> all_own (p_ctxs (papply true builtin p o)) = true.
-Proof.
-  intros H. destruct o as [|j op|j]; cbn [papply p_ctxs]; try exact H.
-  destruct (nth_error (p_builders p) j); [|exact H].
-  destruct (bcreate_st true b) as [[b' cs] oo]. cbn [p_ctxs].
-  destruct cs; [destruct oo|]; try exact H.
-  unfold all_own in *. rewrite forallb_app, H. reflexivity.
-Qed.
-
-Lemma prun_all_own builtin ops : forall p, all_own (p_ctxs p) = true -> all_own (p_ctxs (prun true builtin ops p)) = true.
-Proof.
-  unfold prun. induction ops as [|o ops IH]; intros p H; [exact H|].
-  cbn [fold_left]. apply IH, papply_all_own, H.
-Qed.
-
-(* when create() detaches the configuration: NOTHING done later in the process (same builder included) changes what a
-   context created earlier reports *)
-Theorem context_stable_when_detached builtin ops1 ops2 c :
-  c < length (p_ctxs (prun true builtin ops1 empty_proc)) ->
-  ctx_report (prun true builtin ops2 (prun true builtin ops1 empty_proc)) c = ctx_report (prun true builtin ops1 empty_proc) c.
-Proof.
-  intros L. apply earlier_context_stable. unfold ops_spare_ctx.
-  destruct (all_own_nth _ c (prun_all_own builtin ops1 empty_proc eq_refl) L) as [s ->]. reflexivity.
-Qed.
-
-Local Close Scope nat_scope.
-(* when the context shares the builder's LanguageConfig: a second create() with another override changes what the first
-   context reports (F-CFG-REUSE) *)
-Definition reuse_builtin : list (list N * cv) :=
-  [([110; 117; 110; 97; 118; 117; 116; 46; 108; 97; 110; 103; 46; 99],        (* nunavut.lang.c *)
-    Node [(key_options, Node [([101], Leaf false (AStr [97]))])])].            (* options: {e: "a"} *)
-
-Definition reuse_ops1 : list pop :=
-  [PNew; POp 0 (SetLanguage (Some [99])); POp 0 (SetOverride key_options (Some (Node [([101], Leaf false (AStr [98]))])));
-   PCreate 0].
-Definition reuse_ops2 : list pop :=
-  [POp 0 (SetOverride key_options (Some (Node [([101], Leaf false (AStr [99]))]))); PCreate 0].
-
-Theorem builder_reuse_refuted :
-  exists builtin ops1 ops2 c,
-    (c < length (p_ctxs (prun false builtin ops1 empty_proc)))%nat /\
-    ctx_report (prun false builtin ops2 (prun false builtin ops1 empty_proc)) c <> ctx_report (prun false builtin ops1 empty_proc) c.
-Proof.
-  exists reuse_builtin, reuse_ops1, reuse_ops2, 0%nat. split; [vm_compute; lia|].
-  vm_compute. discriminate.
-Qed.
-
-(* the statement that is live for the code as it is now (flag regenerated from LanguageContextBuilder.create) *)
-Definition context_stability_statement (detach : bool) : Prop :=
-  if detach
-  then forall builtin ops1 ops2 c,
-         (c < length (p_ctxs (prun detach builtin ops1 empty_proc)))%nat ->
-         ctx_report (prun detach builtin ops2 (prun detach builtin ops1 empty_proc)) c = ctx_report (prun detach builtin ops1 empty_proc) c
-  else exists builtin ops1 ops2 c,
-         (c < length (p_ctxs (prun detach builtin ops1 empty_proc)))%nat /\
-         ctx_report (prun detach builtin ops2 (prun detach builtin ops1 empty_proc)) c <> ctx_report (prun detach builtin ops1 empty_proc) c.
-
-Theorem context_stability_all detach : context_stability_statement detach.
-Proof. destruct detach; [exact context_stable_when_detached | exact builder_reuse_refuted]. Qed.
